@@ -8,6 +8,7 @@ import (
 	"strings"
 	"time"
 
+	corev1 "k8s.io/api/core/v1"
 	metav1 "k8s.io/apimachinery/pkg/apis/meta/v1"
 	fwktype "k8s.io/kube-scheduler/framework"
 	testingclock "k8s.io/utils/clock/testing"
@@ -359,7 +360,21 @@ func liveQuery(c *podAssignCache, node string, sh qShape) (vec2, bool) {
 	if err != nil {
 		return vec2{}, false
 	}
-	return vec2{est[0], est[1]}, true
+	// read by resource name: the layout of the code's vectors is its own business (a resource the code's vectorizer does
+	// not know reads as zero, which the estimate oracles then report)
+	var v vec2
+	for i, name := range c.vectorizer {
+		if i >= len(est) {
+			break
+		}
+		switch name {
+		case corev1.ResourceCPU:
+			v[0] = est[i]
+		case corev1.ResourceMemory:
+			v[1] = est[i]
+		}
+	}
+	return v, true
 }
 
 func (s *laSim) shapes(node string) []qShape {
@@ -458,6 +473,24 @@ func (s *laSim) checkQuiescent(burst int) {
 	for n := range s.mAssign {
 		nodes[n] = true
 	}
+	// ---- harness self-check (the real cache is NOT consulted): the expected membership is computed twice from the
+	// history, by state (what the informer shows as bound + the in-flight reservations = truth) and by events (every
+	// delivered event and scheduler call applied to mAssign, which also carries the expected object and assign time).
+	// The two must name the same pods on the same nodes; if they do not, the harness's bookkeeping is wrong and no
+	// verdict about the cache can be trusted. Whether the REAL cache agrees with the expectation is never a matter of
+	// this check: that is what the membership oracle below decides (r.Fail), whatever tree is under test.
+	for _, n := range sortedKeys(nodes) {
+		for _, uid := range sortedKeys(truth[n]) {
+			if s.mAssign[n][uid] == nil {
+				r.HarnessFail("harness bookkeeping: node %s uid %s is bound/reserved there by the informer view, but the event model has no entry (burst %d)", n, uid, burst)
+			}
+		}
+		for _, uid := range sortedUIDs(s.mAssign[n]) {
+			if !truth[n][uid] {
+				r.HarnessFail("harness bookkeeping: node %s uid %s is in the event model, but neither bound there by the informer view nor reserved (burst %d)", n, uid, burst)
+			}
+		}
+	}
 	for _, n := range sortedKeys(nodes) {
 		ni := live[n]
 		wantEntry := s.mMetric[n] != nil || len(truth[n]) > 0
@@ -496,11 +529,13 @@ func (s *laSim) checkQuiescent(burst int) {
 		if wantMetric != gotMetric {
 			r.Fail("membership", "metric-event-lost", "node %s: cache holds metric %v, the informer delivered %v last (burst %d)", n, rvOf(gotMetric), rvOf(wantMetric), burst)
 		}
-		// the harness's own event bookkeeping must agree with the truth-derived membership (else the harness is wrong)
+		// ---- (1b') the same against the event-derived expectation, entry by entry: pod, object version, assign time.
+		// (Membership by events equals membership by state - checked above without looking at the cache - so a
+		// difference between the cache and the event model is a finding about the cache, never about the harness.)
 		for _, uid := range liveUIDs {
 			a := s.mAssign[n][uid]
 			if a == nil {
-				r.HarnessFail("node %s uid %s cached and expected by truth, but the event model has no entry", n, uid)
+				r.Fail("membership", "ghost-pod", "node %s caches pod uid %s although the delivered events and scheduler calls leave no pod with that uid on the node (burst %d)", n, uid, burst)
 			}
 			pi := ni.podInfos[typesUID(uid)]
 			if pi.pod != a.snap.obj {
@@ -510,8 +545,10 @@ func (s *laSim) checkQuiescent(burst int) {
 				r.Fail("membership", "assign-timestamp", "node %s pod %s: cached assign time %v, expected %v", n, a.snap.Name, pi.timestamp, a.ts)
 			}
 		}
-		if len(s.mAssign[n]) != len(liveUIDs) {
-			r.HarnessFail("node %s: event model has %d entries, cache %d", n, len(s.mAssign[n]), len(liveUIDs))
+		for _, uid := range sortedUIDs(s.mAssign[n]) {
+			if ni == nil || ni.podInfos[typesUID(uid)] == nil {
+				r.Fail("membership", "lost-pod", "pod uid %s was placed on node %s by the delivered events / scheduler calls and never taken off, but it is missing from the cache (burst %d)", uid, n, burst)
+			}
 		}
 		// ---- (1c) estimates: live == fresh caches == independent recomputation
 		var fresh []*podAssignCache
